@@ -760,7 +760,7 @@ func (v Value) evaluateBreak(labels []string) resultKind {
 func (v Value) toReflectValue(typ reflect.Type) (reflect.Value, error) {
 	kind := typ.Kind()
 	switch kind {
-	case reflect.Float32, reflect.Float64, reflect.Interface:
+	case reflect.Float32, reflect.Float64, reflect.Interface, reflect.Bool, reflect.String:
 	default:
 		switch value := v.value.(type) {
 		case float32:
